@@ -527,6 +527,11 @@ C09_startstop(g, o2, ln) ==
         \A i \in WIdx(o2) : /\ (o2.w[i].st = "active"  => LastEvOf(g, o2.w[i].ln) = "start")
                             /\ (o2.w[i].st = "stopped" => LastEvOf(g, o2.w[i].ln) # "start")
 
+\* what `status <name>` answers is the status the watcher has (and the events announced)
+C09_status(g, ln, o2) ==
+   (ln.k = "reply" /\ g.ctx.on /\ ln.x = g.ctx.cid /\ g.ctx.cmd = "status" /\ g.ctx.hasname /\ ln.r # "error") =>
+      \E i \in WIdx(o2) : o2.w[i].ln = g.ctx.lname /\ o2.w[i].st = ln.r /\ o2.w[i].n \in SeqToSet(o2.wl)
+
 \* ---------------- C10
 C10_wedge(o2, ln) == ~(ln.cb = 0 /\ ln.k \in {"tick", "req", "probe", "end"} /\ o2.fl = 0 /\ o2.slot # "")
 C10_refuse(g, o, ln, o2) ==
@@ -719,7 +724,7 @@ Clauses(g, o, ln, o2, g2) ==
     C06_reply |-> C06_reply(g, ln), C06_status |-> C06_status(ln), C06_all |-> C06_all(g, ln),
     C08_done |-> C08_done(g2, o2, ln),
     C09_spawn |-> C09_spawn(g, ln), C09_reap |-> C09_reap(g, o, ln), C09_live |-> C09_live(g2, o2, ln),
-    C09_startstop |-> C09_startstop(g, o2, ln),
+    C09_startstop |-> C09_startstop(g, o2, ln), C09_status |-> C09_status(g, ln, o2),
     C10_wedge |-> C10_wedge(o2, ln), C10_refuse |-> C10_refuse(g, o, ln, o2), C10_accept |-> C10_accept(ln), C10_held |-> C10_held(g, o, ln, o2),
     C11_unchanged |-> C11_unchanged(g, ln, o2),
     C13_wid |-> C13_wid(o, o2),
